@@ -12,11 +12,11 @@ func C02(c *mc.Ctx) {
 	alphabet := []string{
 		"req:p1:n:0", "rc:p1:n:s", "req:p1:d:0", "req:p1:f:0", "rc:p1:d:s", "rc:p1:u:s", "rc:p1:n:f",
 		"req:p3:n:0", "req:p2:n:0", "req:p1:n:0+req:p1:n:0", "req:p1:n:0+rc:p1:n:s+xfer",
-		"call:DeleteInterchain", "call:Register",
+		"call:DeleteInterchain", "call:Register", "empty",
 	}
 	depth := 4
 	if !c.Quick() {
-		alphabet = append(alphabet, "req:p1:z:0", "req:p1:h:0", "rc:p1:f:s", "rc:p3:n:s", "rc:p2:n:f", "xfer", "empty",
+		alphabet = append(alphabet, "req:p1:z:0", "req:p1:h:0", "rc:p1:f:s", "rc:p3:n:s", "rc:p2:n:f", "xfer",
 			"call:GetInterchain", "call:GetIBTPByID", "call:HandleIBTPData", "req:p1:d:0+req:p1:n:0+req:p1:f:0", "reopen")
 		depth = 5
 	}
